@@ -210,6 +210,38 @@ def check_groups_completion(pm, ctx, rid):
 
 
 # ------------------------------------------------------------------------------------------------ constraint_params wrapper
+def _ignored_name_test(w, test, pname):
+    """`pname in L` where the local list L only holds the names of the *args / **kwargs parameters of the decorated function and "self" """
+    if not (isinstance(test, ast.Compare) and len(test.ops) == 1 and isinstance(test.ops[0], ast.In) and norm_src(test.left) == pname and isinstance(test.comparators[0], ast.Name)):
+        return False
+    lst = test.comparators[0].id
+
+    def part_ok(e):
+        if isinstance(e, ast.BinOp) and isinstance(e.op, ast.Add):
+            return part_ok(e.left) and part_ok(e.right)
+        if isinstance(e, (ast.List, ast.Tuple)):
+            return all(isinstance(x, ast.Constant) and x.value == "self" for x in e.elts)
+        if isinstance(e, ast.ListComp) and len(e.generators) == 1:
+            g = e.generators[0]
+            if not (isinstance(g.target, ast.Name) and norm_src(e.elt) == f"{g.target.id}.name" and norm_src(g.iter).endswith(".parameters.values()") and len(g.ifs) == 1):
+                return False
+            c = g.ifs[0]
+            if isinstance(c, ast.Compare) and len(c.ops) == 1 and isinstance(c.ops[0], ast.In) and norm_src(c.left) == f"{g.target.id}.kind" \
+                    and isinstance(c.comparators[0], (ast.Tuple, ast.List, ast.Set)):
+                return all(norm_src(x).split(".")[-1] in ("VAR_POSITIONAL", "VAR_KEYWORD") for x in c.comparators[0].elts)
+            return False
+        return False
+    defs = [n for n in ast.walk(w) if isinstance(n, (ast.Assign, ast.AugAssign)) and any(isinstance(t, ast.Name) and t.id == lst for t in (n.targets if isinstance(n, ast.Assign) else [n.target]))]
+    if not defs:
+        return False
+    for d in defs:
+        if isinstance(d, ast.AugAssign) and not isinstance(d.op, ast.Add):
+            return False
+        if not part_ok(d.value):
+            return False
+    return True
+
+
 def decorator_integrity(pm, ctx, rid):
     u = pm.unit("gemclus._constraints")
     outer = u.func("constraint_params")
@@ -256,6 +288,9 @@ def decorator_integrity(pm, ctx, rid):
             elif isinstance(s, ast.Continue) and not inner:
                 ok = len(conds) == 1 and conds[0][1] is True and norm_src(conds[0][0]) in (f"{pname} not in {table}", f"not {pname} in {table}") \
                     or len(conds) == 1 and conds[0][1] is False and norm_src(conds[0][0]) == f"{pname} in {table}"
+                if not ok and len(conds) == 1 and conds[0][1] is True and isinstance(conds[0][0], ast.BoolOp) and isinstance(conds[0][0].op, ast.Or):
+                    # a disjunction of reasons to skip: no entry in the table, or a name of the ignore list (*args / **kwargs / self)
+                    ok = all(norm_src(v) in (f"{pname} not in {table}", f"not {pname} in {table}") or _ignored_name_test(w, v, pname) for v in conds[0][0].values)
                 if not ok:
                     escapes.append((s, list(conds)))
             elif isinstance(s, ast.If):
